@@ -42,7 +42,7 @@ def _NONNULL(cfg):
 
 
 # calls of supplied (and built-in) C++ functions with one argument too many / too few or in the other call style
-_BADCALLS = ("MCGrafts_userfn.cfg", None, {"fnmd": True, "grafts": ("userfn_", "builtin_fn_"), "cap": {"quick": 300, "thorough": 3000}})
+_BADCALLS = ("MCGrafts_userfn.cfg", None, {"fnmd": True, "grafts": ("userfn_", "builtin_fn_"), "cap": {"quick": 300, "thorough": 1200}})
 
 
 def _INTDIV(t):
@@ -145,12 +145,12 @@ SPECS = {
                             ("MCQueryGen_userfn_m.cfg", None, {"fnmd": True, "cap": {"quick": 160, "thorough": 160}}),
                             ("MCQueryGen_userfn_let.cfg", None, {"fnmd": True, "cap": {"quick": 460, "thorough": 1700}})],
                   "thorough": [("MCQueryGen_userfn_t.cfg", None, {"fnmd": True}), _BADCALLS,
-                               ("MCQueryGen_userfn_let_t.cfg", None, {"fnmd": True, "cap": {"quick": 460, "thorough": 1700}}),
+                               ("MCQueryGen_userfn_let_t.cfg", None, {"fnmd": True, "cap": {"quick": 460, "thorough": 900}}),
                                ("MCQueryGen_userfn_ft.cfg", None, {"fnmd": True, "cap": {"quick": 210, "thorough": 2500}}),
                                ("MCQueryGen_userfn_et.cfg", None, {"fnmd": True, "cap": {"quick": 300, "thorough": 3000}}),
                                ("MCQueryGen_userfn_m.cfg", None, {"fnmd": True, "cap": {"quick": 160, "thorough": 160}})]},
         events={"quick": 6, "thorough": 16},
-        cap={"quick": 2200, "thorough": 9000},
+        cap={"quick": 2200, "thorough": 6000},
     ),
     "C12": pcheck.PSpec(
         "C12",
